@@ -45,28 +45,54 @@ def apply_edit(root, edit):
     return True
 
 
+SWEEP_CACHE = os.environ.get('VERIF_SWEEP_CACHE', '/tmp/qverif_sweepcache')
+SWEEP_CACHE_KEEP = int(os.environ.get('VERIF_SWEEP_CACHE_KEEP', '90'))
+
+
+def facts_for(repo_dir):
+    """facts directory for a scratch tree, shared between properties through a scratch cache keyed by the source hash
+    (the quiet corpus is the same for every property). The cache lives under /tmp and is only an accelerator."""
+    key = core.source_hash(repo_dir)
+    out = os.path.join(SWEEP_CACHE, key)
+    if os.path.exists(os.path.join(out, 'OK')):
+        try:
+            os.utime(out, None)
+        except OSError:
+            pass
+        return out
+    os.makedirs(SWEEP_CACHE, exist_ok=True)
+    tmp = tempfile.mkdtemp(prefix='x_', dir=SWEEP_CACHE)
+    r = subprocess.run([os.path.join(core.VERIF, 'engines', 'extract.sh'), repo_dir, tmp], stdout=subprocess.PIPE, stderr=subprocess.PIPE, text=True)
+    if r.returncode != 0:
+        shutil.rmtree(tmp, ignore_errors=True)
+        return None
+    with open(os.path.join(tmp, 'OK'), 'w') as fh:
+        fh.write('ok')
+    try:
+        os.rename(tmp, out)
+    except OSError:
+        shutil.rmtree(tmp, ignore_errors=True)   # another worker was faster
+    core._prune_cache(SWEEP_CACHE, keep=SWEEP_CACHE_KEEP)
+    return out if os.path.exists(os.path.join(out, 'OK')) else None
+
+
 def run_rules_on(prop, repo_dir):
     """Extract facts for repo_dir and run prop's rules; returns (status, failing obligations, compile_ok)."""
-    out = tempfile.mkdtemp(prefix='qverif_facts_', dir='/tmp')
+    out = facts_for(repo_dir)
+    if out is None:
+        return 'does-not-compile', [], False
+    F = factsmod.Facts(out)
+    mod = importlib.import_module('rules.' + prop.lower())
+    ck = core.Check(prop, 'thorough', F, level=getattr(mod, 'LEVEL', 'other'))
     try:
-        cmd = [os.path.join(core.VERIF, 'engines', 'extract.sh'), repo_dir, out]
-        r = subprocess.run(cmd, stdout=subprocess.PIPE, stderr=subprocess.PIPE, text=True)
-        if r.returncode != 0:
-            return 'does-not-compile', [], False
-        F = factsmod.Facts(out)
-        mod = importlib.import_module('rules.' + prop.lower())
-        ck = core.Check(prop, 'thorough', F, level=getattr(mod, 'LEVEL', 'other'))
-        try:
-            mod.run(ck)
-        except Exception as e:  # noqa
-            ck.ob('internal', 'checker-exception', False, '', repr(e))
-        bad = [o for o in ck.obligations if not o['ok'] and ck._known(o['rule'], o['key']) is None]
-        for f in ck.floors:
-            if not f['ok']:
-                bad.append({'rule': f['rule'], 'key': 'anchor-lost', 'loc': '', 'detail': 'floor %s: %d < %d' % (f['what'], f['count'], f['minimum'])})
-        return ('fires' if bad else 'silent'), bad, True
-    finally:
-        shutil.rmtree(out, ignore_errors=True)
+        mod.run(ck)
+    except Exception as e:  # noqa
+        ck.ob('internal', 'checker-exception', False, '', repr(e))
+    bad = [o for o in ck.obligations if not o['ok'] and ck._known(o['rule'], o['key']) is None]
+    for f in ck.floors:
+        if not f['ok']:
+            bad.append({'rule': f['rule'], 'key': 'anchor-lost', 'loc': '', 'detail': 'floor %s: %d < %d' % (f['what'], f['count'], f['minimum'])})
+    return ('fires' if bad else 'silent'), bad, True
 
 
 def run_one_edit(prop, edits, repo=None):
